@@ -24,7 +24,7 @@ from __future__ import annotations
 import numpy as np
 
 from sa.core import AnalysisError, Report
-from sa.ival import Fmt, Domain, evaluate, Unsupported, LIBM_SLACK
+from sa.ival import Fmt, Domain, ErrDomain, evaluate, Unsupported, LIBM_SLACK
 from sa.boxes import refine, Budget
 from ir.frontend import load_package, expand
 from ir.normal import Importer, sym, Unmodelled
@@ -134,6 +134,66 @@ def make_judge(name, term, fmt, dom, delta):
     return judge
 
 
+ERR_BOUND_U = 32.0   # forward error bound proved on boxes, in units of u = 2**-p
+POINT_ULP = 6.0      # concrete error accepted at single points where the bound is not provable, in ULP of the true value
+
+
+def make_err_judge(name, term, fmt, counters):
+    """R2.3: forward error analysis on boxes; exact evaluation at points."""
+    args = FUNCS[name][0]
+    edom = ErrDomain(fmt)
+    pdom = Domain(fmt, slack=0)
+    L = LD(fmt.largest)
+
+    def judge(l, h):
+        los = [fmt.from_ord(l[:, i]) for i in range(len(args))]
+        his = [fmt.from_ord(h[:, i]) for i in range(len(args))]
+        tlo, thi, d_all, d_none, hint = true_range(name, los, his)
+        shp = tlo.shape
+        point = (l == h).all(axis=1)
+        R = evaluate(term, {a: edom.box(los[i], his[i]) for i, a in enumerate(args)}, edom)
+        rlo = np.broadcast_to(R.lo, shp).astype(LD)
+        rhi = np.broadcast_to(R.hi, shp).astype(LD)
+        rn, re = np.broadcast_to(R.nan, shp), np.broadcast_to(R.emp, shp)
+        rel = np.broadcast_to(0.0 if R.rel is None else R.rel, shp)
+        abe = np.broadcast_to(LD(0.0) if R.abe is None else R.abe, shp)
+        with np.errstate(all="ignore"):
+            rmin = np.where((rlo <= 0) & (rhi >= 0), LD(0.0), np.minimum(np.abs(rlo), np.abs(rhi)))
+            tot = rel + np.where(abe <= 4 * edom.eta, 0.0, (abe / rmin).astype(np.float64))
+            tot = np.where(np.isnan(tot), 1e30, tot)
+            # a result that overflows is judged by R2.2; the error model does not apply to it
+            finite = np.isfinite(rlo) & np.isfinite(rhi) & (thi < L) & (tlo > -L)
+        bound_ok = (tot <= ERR_BOUND_U * edom.u) & ~rn & ~re
+        proved = np.where(d_all, bound_ok | ~finite, np.where(d_none, True, False))
+        refuted = np.zeros(shp, bool)
+        err_ulp = np.zeros(shp)
+        # single points: exact evaluation with the host's library functions against the long-double reference
+        cand = point & d_all & ~proved
+        if cand.any():
+            P = evaluate(term, {a: pdom.box(los[i], his[i]) for i, a in enumerate(args)}, pdom)
+            plo = np.broadcast_to(P.lo, shp).astype(LD)
+            with np.errstate(all="ignore"):
+                ulp = np.maximum(np.abs(tlo), LD(fmt.smallest)) * LD(2.0 ** (1 - fmt.p))
+                e = np.abs(plo - tlo) / ulp
+                e = np.where(np.isnan(e), np.where(np.isnan(plo) == np.isnan(tlo), 0.0, np.inf), e)
+                e = np.where(np.isinf(plo) & np.isinf(tlo) & (plo == tlo), 0.0, e)
+            err_ulp = e.astype(np.float64)
+            okp = cand & (err_ulp <= POINT_ULP)
+            proved = proved | okp
+            refuted = cand & ~okp
+            counters["points_checked"] += int(cand.sum())
+
+        def describe(i):
+            box = ", ".join(f"{a} in [{float(los[k][i]).hex()}, {float(his[k][i]).hex()}]" for k, a in enumerate(args))
+            if point[i]:
+                return f"{box} (= {', '.join(repr(float(los[k][i])) for k in range(len(args)))}): error {err_ulp[i]:.1f} ULP against the true value {float(tlo[i])!r}; forward error bound {tot[i] / edom.u:.0f}u"
+            return f"{box}: forward error bound {tot[i] / edom.u:.0f}u"
+
+        return proved, refuted, describe, hint
+
+    return judge
+
+
 def initial_boxes(fmt, nargs):
     oi = fmt.ord_inf
     rng = [(-oi - 1, -oi - 1), (-oi, -2), (-1, -1), (0, 0), (1, oi - 1), (oi, oi)]
@@ -150,7 +210,7 @@ def _analyse(root, ftype, name, tier):
     args, fn, dlo, dhi = FUNCS[name]
     fmt = Fmt(ftype)
     dom = Domain(fmt)
-    res = dict(special=[], refuted=[], ok=None, error=None, stats=dict(boxes=0, proved=0, points=0, levels=0))
+    res = dict(special=[], refuted=[], ok=None, error=None, stats=dict(boxes=0, proved=0, points=0, levels=0), err_refuted=[], err_ok=None, err_error=None)
     try:
         term = _term(fa, name, args, ftype)
         if len(args) == 1:
@@ -186,6 +246,18 @@ def _analyse(root, ftype, name, tier):
             return res
         res["ok"] = f"{out.proved} boxes ({out.proved_points} single points) proved, {out.levels} refinement levels, bound 2**{int(np.log2(d))}, DAG {_dag_size(term)} nodes"
         res["stats"] = dict(boxes=out.evaluated, proved=out.proved, points=out.proved_points, levels=out.levels)
+        # R2.3 forward error analysis
+        counters = dict(points_checked=0)
+        ejudge = make_err_judge(name, term, fmt, counters)
+        try:
+            eout = refine(lo0, hi0, ejudge, max_boxes=6_000_000, probe_limit=2_000_000, probe_dims=1)
+        except Budget as e:
+            eout = e.outcome
+            if not eout.refuted:
+                res["err_error"] = f"{name}[{ftype}]: forward error bound of {ERR_BOUND_U:.0f}u not provable on {len(e.pending[0])} boxes and no single point exceeds {POINT_ULP:.0f} ULP so far ({e})"
+                return res
+        res["err_refuted"] = [(str(lo_), info) for lo_, hi_, info in eout.refuted[:4]]
+        res["err_ok"] = f"{eout.proved} boxes proved ({eout.proved_points} single points, {counters['points_checked']} of them by exact evaluation), {eout.levels} refinement levels"
     except (Unsupported, Unmodelled) as e:
         res["error"] = f"{name}[{ftype}]: {e}"
     return res
@@ -202,6 +274,7 @@ def run(repo, tier):
 
     r = Report("C02", tier, repo, level="other", design_ref="DESIGN.md §3/C02")
     r.rule("R2.1", "each real algorithm returns the exact limit at -inf, -0, +0, +inf and at the ends of its domain, and NaN exactly at the special points where the function is undefined", floor=40)
+    r.rule("R2.3", f"forward error analysis: on every box of a partition of all inputs the rounding-error bound of the expression DAG is at most {ERR_BOUND_U:.0f}u (u = 2**-p), or, at single points where the bound is not provable, the exactly evaluated result is within {POINT_ULP:.0f} ULP of the true value", floor=14)
     r.rule("R2.2", "for every float of the format (adaptive partition of the whole line/plane, interval abstract interpretation): NaN exactly outside the domain, no spurious NaN/inf, correct sign and relative error below the coarse bound", floor=14)
     if np.finfo(LD).maxexp <= 1024:
         raise AnalysisError("numpy.longdouble is not an extended format on this machine; the reference ranges for float64 would overflow")
@@ -232,5 +305,13 @@ def run(repo, tier):
         for k in ("boxes", "proved", "points"):
             total[k] += res["stats"][k]
         total["levels"] = max(total["levels"], res["stats"]["levels"])
+        if res.get("err_error") and not res.get("err_refuted"):
+            raise AnalysisError(res["err_error"])
+        ekey = f"{name}[{ftype}] forward error"
+        if res.get("err_refuted"):
+            for lo_, info in res["err_refuted"]:
+                r.ob("R2.3", ekey + f" at {lo_}", False, info, where)
+        elif res.get("err_ok"):
+            r.ob("R2.3", ekey, True, res["err_ok"], where)
     r.info("R2.2", f"boxes evaluated {total['boxes']}, proved {total['proved']} (of which single points {total['points']}), deepest refinement {total['levels']} levels; library-function slack {LIBM_SLACK} ulp; {jobs} worker process(es)")
     return r
